@@ -35,6 +35,39 @@ Encoding (generic, no per-function configuration beyond the function's name):
   UNTRANSLATABLE: the generated file then holds a comment with the reason and no definition of that name, so that the
   bridge theorem about it no longer compiles.
 Only the Python standard library is used.
+
+Phase 2 additions (builder b1: C13, C20, C14, C11), all generic:
+* a spec entry may name the class template specialisation a method belongs to (`record`: `GridIndexMapping<double, 2>`); members of
+  instantiated class templates and out-of-class explicit specialisations (`template<> void RayCasting<double, 2>::next`) are found;
+* Eigen coefficient-wise expressions on fixed-size objects, coefficient by coefficient: `.array()` / `.matrix()` (also as assignment
+  targets), `a + b`, `a - b`, `a * s`, `s * a`, `a / s`, `a / b` (CwiseBinaryOp), unary minus, `< <= > >= == !=` (coefficients are `Prop`s),
+  `floor ceil abs sqrt …` (free functions and members), `.min(b) .max(b) .cwiseMin .cwiseMax` (= `std::min` / `std::max`),
+  `.cwiseProduct .cwiseQuotient`, `.template cast<T>()`, `T::Constant(x)`, `.transpose()`, `.col(j) .row(i) .head(n) .tail(n)
+  .segment(i, n) .block<R, C>(i, j) .block(i, j, R, C)` with constant arguments (a block of a variable reads only its coefficients;
+  `M.block<R, C>(i, j) = expr;` writes them one by one), the reductions `.all() .any()` (conjunction / disjunction), `.prod()` of
+  booleans (conjunction), `.sum() .prod() .minCoeff() .maxCoeff()` (left-to-right — trusted reading, like `norm()`), the statements
+  `a += b`, `a -= b`, `a *= s`, `a /= s`, `.setConstant(x) .setZero() .setOnes()`.  A scalar operand is converted to the expression's
+  coefficient type; a floating LITERAL operand of another floating type (`arrayOfFloat - 0.5`, `float(0.5)`) is read at the target type
+  when its decimal value is exact there (24-bit significand), so the `float` instantiations keep ONE scalar type;
+* `const T & f() const { return member_; }` is the member itself (as an lvalue and for Eigen-typed values);
+* `std::vector<scalar>` is a Lean `List` (type codes `la ld li lb`): `v[i]` (read) is `vecGet? v i`, `v[i] = x` is `vecSet? v i x`,
+  both `Option`-valued — the translated function then returns `Option`, `none` = an index outside the vector (undefined behaviour in
+  C++) —, `.size() .empty() .resize(n) .clear() .push_back(x)`, constructors `()` / `(n)`; `std::vector<std::vector<scalar>>(N)` with a
+  constant N is an aggregate of N lists addressed by constant indices; `std::vector` of fixed-size Eigen vectors of one scalar type
+  (2 to 4 coefficients) is a `List` of coordinate tuples (`L2a`, …): `.size()`, `v[i]` (read), `const T & p = v[i];` (bound by value).
+  The helper definitions `vecGet? vecSet? vecResize` are emitted into the generated file when used;
+* `for (T i = a; i < b; ++i)` whose body neither assigns `i` nor breaks: with constant `a`, `b` (at most 16 iterations) the loop is
+  UNROLLED (`i` is then a constant: `v[i]`, `m.col(i)` …); otherwise, if `b` is loop-invariant, the auxiliary function recurses on the
+  trip count `(b - a).toNat` instead of on fuel and does not re-test the condition (no `fuel` parameter; `some` at count 0); the
+  init statement may declare further variables (`for (size_t n = 0, N = v.size(); n < N; ++n)`);
+* integer constant expressions (indices, block sizes) are evaluated through `const` / `static constexpr` variables and template
+  arguments by declaration id; `std::numeric_limits<Alias>::max()` with a type alias takes the floating type of the call;
+* `++x` / `--x` / `x++` / `x--` on integers used as VALUES (`if (n > 0 && --n == 0)`): `if (a && b) S else T` with a side effect in `b`
+  is translated as `if (a) { if (b) S else T } else T`; conditionally evaluated operands still refuse side effects;
+* a callee that indexes with an integer PARAMETER (`step_(cellIndexes, axis)` with `v[axis]`) is translated once per constant
+  argument of the call (`step__double_2_c0`, …);
+* a pointer (member / parameter) to a class object with a definition in the TU stands for that object (`p->f` is the leaf `p_f`):
+  assumes it is not null and aliases nothing else the function touches; assigning such a pointer stays untranslatable.
 """
 import json
 import os
@@ -287,9 +320,9 @@ class TU:
             f = os.path.relpath(f, self.repo)
         return '%s:%s' % (f, loc.get('line', '?'))
 
-    def find_function(self, cxx, sig=None, targs=None):
+    def find_function(self, cxx, sig=None, targs=None, record=None):
         """all function definitions whose qualified name ends with `cxx` (optionally: whose type contains `sig`,
-        whose template arguments are `targs`)"""
+        whose template arguments are `targs`, whose class (template specialisation) is `record`, e.g. `Interval<double, 2>`)"""
         out = []
         for fid, d in self.funcs.items():
             q = self.fqual[fid]
@@ -301,12 +334,27 @@ class TU:
                     continue
                 if targs is not None and self.tmpl_args.get(fid) != targs:
                     continue
+                if record is not None:
+                    rq = self.record_of(d).get('_qual', '')
+                    if not (rq == record or rq.endswith('::' + record)):
+                        continue
                 out.append(d)
         return out
+
+    def record_of(self, d):
+        """the (instantiated) class a method belongs to: its lexical parent, or — for out-of-class definitions and explicit
+        specialisations — its semantic parent"""
+        for rid in (d.get('parentDeclContextId'), self.parent.get(d.get('id'))):
+            if rid in self.records:
+                return self.records[rid]
+        return {}
 
     def _dependent(self, d):
         """template patterns (uninstantiated) have dependent types somewhere in the signature"""
         t = (d.get('type') or {}).get('qualType', '')
+        prec = self.record_of(d)
+        if prec.get('_qual', '').endswith('>') and prec.get('kind') == 'ClassTemplateSpecializationDecl':
+            return False      # a member of an instantiated class template (phase 2)
         if re.search(r'\b(Scalar|T|Derived|PointType|type-parameter)\b', t) and d.get('id') not in self.tmpl_args:
             # the pattern of a function template; instantiations carry TemplateArgument children
             return True
@@ -361,7 +409,18 @@ def classify(t):
         return 'void'
     if INT_RE.match(t):
         return 'uint' if (t.startswith('unsigned') or 'size_t' in t or re.match(r'^(std::)?uint', t)) else 'int'
+    if vec_elem(t) is not None and classify(vec_elem(t)) in ('double', 'float', 'int', 'uint', 'bool'):
+        return 'list'      # std::vector of scalars (phase 2): a Lean `List`
     return 'agg'
+
+
+VEC_RE = re.compile(r'^(?:std::)?vector<\s*(.+?)\s*(?:,\s*[\w:]*allocator<.*>)?\s*>$')
+
+
+def vec_elem(t):
+    """element type of a `std::vector<T>` type (None for every other type)"""
+    m = VEC_RE.match(strip_cv(t))
+    return m.group(1) if m else None
 
 
 LEAN_KEYWORDS = {'at', 'from', 'end', 'open', 'fun', 'in', 'let', 'have', 'show', 'then', 'else', 'if', 'do', 'by', 'with', 'match',
@@ -437,7 +496,10 @@ class Sc:
         return 'Sc(%s:%s)' % (self.t, self.ty)
 
 
-TY_LEAN = {'a': 'α', 'd': 'δ', 'i': 'Int', 'b': 'Bool', 's': 'String'}
+TY_LEAN = {'a': 'α', 'd': 'δ', 'i': 'Int', 'b': 'Bool', 's': 'String', 'la': 'List α', 'ld': 'List δ', 'li': 'List Int', 'lb': 'List Bool'}
+for _n in (2, 3, 4):      # std::vector of fixed-size Eigen vectors: lists of coordinate tuples (phase 2)
+    for _c, _s in (('a', 'α'), ('d', 'δ'), ('i', 'Int')):
+        TY_LEAN['L%d%s' % (_n, _c)] = 'List (%s)' % ' × '.join([_s] * _n)
 CLASS_ORDER = ['Add', 'Sub', 'Mul', 'Div', 'Neg', 'LT', 'LE', 'DecidableLT', 'DecidableLE', 'DecidableEq', 'NatCast', 'IntCast',
                'OfScientific', 'Trans', 'Trunc', 'Limits']
 
@@ -619,7 +681,9 @@ def strip_noop(n):
     """through parentheses, temporaries and value-preserving casts (NOT through LValueToRValue)"""
     while True:
         k = n.get('kind')
-        if k in TRANSPARENT and n.get('inner'):
+        if k == 'SubstNonTypeTemplateParmExpr' and n.get('inner'):
+            n = n['inner'][-1]      # [the template parameter's declaration, the substituted expression]
+        elif k in TRANSPARENT and n.get('inner'):
             n = n['inner'][0]
         elif k in ('ImplicitCastExpr', 'CXXStaticCastExpr', 'CStyleCastExpr', 'CXXFunctionalCastExpr', 'CXXConstCastExpr') \
                 and n.get('castKind') in NOOP_CASTS and n.get('inner'):
@@ -670,6 +734,13 @@ class Translator:
             return 'b'
         if c == 'string':
             return 's'
+        if c == 'list':
+            return 'l' + self.tyvar(frame, vec_elem(ctype))
+        if c == 'agg' and vec_elem(ctype) is not None:      # std::vector of small fixed-size vectors of one scalar type
+            sh = self.shape_of(vec_elem(ctype))
+            tys = set(self.tyvar(frame, st) for _, st in sh)
+            if 2 <= len(sh) <= 4 and len(tys) == 1 and list(tys)[0] in ('a', 'd', 'i') and all(len(p_) == 1 for p_, _ in sh):
+                return 'L%d%s' % (len(sh), list(tys)[0])
         raise Untranslatable('non-scalar type %s where a scalar is needed' % ctype)
 
     # ------------------------------------------------------------------ lvalues
@@ -677,10 +748,46 @@ class Translator:
         return frame.top().root_names.get(root, '' if root == 'this' else 'v')
 
     def const_int(self, n, env):
+        si = self.static_int(n)      # phase 2: literals, `static constexpr` members / template arguments (followed by declaration id)
+        if si is not None:
+            return si
         v = self.eval(n, env, [])
         if v is None or getattr(v, 'lit', None) is None:
             raise Untranslatable('index is not an integer constant')
         return v.lit
+
+    def static_int(self, n, depth=0):
+        """value of an integer constant expression made of literals, casts, + - *, and references to const / constexpr
+        variables with such an initialiser (None if it is not one)"""
+        if depth > 8:
+            return None
+        n = strip_noop(n)
+        k = n.get('kind')
+        if k == 'IntegerLiteral':
+            return int(n.get('value'))
+        if k in ('ImplicitCastExpr', 'CStyleCastExpr', 'CXXStaticCastExpr', 'CXXFunctionalCastExpr') and n.get('inner') \
+                and n.get('castKind') in ('LValueToRValue', 'IntegralCast', 'NoOp'):
+            return self.static_int(n['inner'][-1], depth + 1)
+        if k == 'BinaryOperator' and n.get('opcode') in ('+', '-', '*'):
+            a, b = self.static_int(n['inner'][0], depth + 1), self.static_int(n['inner'][1], depth + 1)
+            if a is None or b is None:
+                return None
+            return {'+': a + b, '-': a - b, '*': a * b}[n['opcode']]
+        if k == 'DeclRefExpr':
+            rd = n.get('referencedDecl') or {}
+            if rd.get('kind') == 'EnumConstantDecl':
+                return self.tu.enum_consts.get(rd.get('id'))
+            v = self.tu.globals.get(rd.get('id')) or self.tu.decl_by_id.get(rd.get('id'))
+            if not v or v.get('kind') != 'VarDecl':
+                return None
+            t = (v.get('type') or {}).get('qualType', '')
+            if not (t.startswith('const ') or ' const' in t or v.get('constexpr')):
+                return None
+            init = [c for c in v.get('inner', []) or [] if c.get('kind', '').endswith('Expr') or c.get('kind', '').endswith('Literal') or c.get('kind', '').endswith('Operator')]
+            if not init:
+                return None
+            return self.static_int(init[0], depth + 1)
+        return None
 
     def resolve_lvalue(self, n, env):
         n = strip_noop(n)
@@ -706,10 +813,17 @@ class Translator:
             if b.get('kind') == 'CXXThisExpr':
                 return 'this', []
             raise Untranslatable('pointer dereference')
+        if k == 'ImplicitCastExpr' and n.get('castKind') == 'LValueToRValue' and self.is_object_pointer(n):
+            # phase 2: a pointer (member / parameter) to a class object stands for that object: assumes it is not null and does not
+            # alias anything else the function touches; assigning such a pointer is not translatable
+            return self.resolve_lvalue(n['inner'][0], env)
         if k == 'MemberExpr':
             b = strip_noop(n['inner'][0])
             if b.get('kind') == 'CXXThisExpr':
                 return 'this', [n.get('name')]
+            if n.get('isArrow') and self.is_object_pointer(b):
+                r, p = self.resolve_lvalue(b, env)
+                return r, p + [n.get('name')]
             if n.get('isArrow') and not (b.get('kind') == 'CXXOperatorCallExpr' and
                                          (self.callee_ref(b).get('referencedDecl') or {}).get('name') == 'operator->'):
                 raise Untranslatable('member access through a pointer')
@@ -740,13 +854,31 @@ class Translator:
                 if nm in ('coeff', 'coeffRef'):
                     r, p = self.resolve_lvalue(callee['inner'][0], env)
                     return r, p + [tuple(self.const_int(a, env) for a in n['inner'][1:])]
+                if nm in ('array', 'matrix') and len(n['inner']) == 1:      # phase 2: the same coefficients, seen as an array / a matrix
+                    return self.resolve_lvalue(callee['inner'][0], env)
             if nm in ('front', 'back', 'begin') and len(n['inner']) == 1 and re.search(r'\bstd::|^(const )?(list|map|vector|deque)<', t):
                 # first / last element (iterator) of a standard container, as a fixed location: valid as long as the function does
                 # not change the container's structure (push_back / insert / erase are not translatable, so it cannot)
                 r, p = self.resolve_lvalue(callee['inner'][0], env)
                 return r, p + [nm]
+            g = self.getter_member(n)
+            if g is not None:      # phase 2: `const T & lower() const { return lower_; }` is the member itself
+                r, p = self.resolve_lvalue(callee['inner'][0], env)
+                return r, p + [g]
             raise Untranslatable('member call %s as an lvalue' % nm)
         raise Untranslatable('unsupported lvalue expression %s' % k)
+
+    def is_object_pointer(self, n):
+        """`p` (read) where p is a variable / member of type pointer to a class with a complete definition in the TU"""
+        if n.get('kind') != 'ImplicitCastExpr' or n.get('castKind') != 'LValueToRValue' or not n.get('inner'):
+            return False
+        t = strip_cv(type_of(n))
+        if not t.endswith('*'):
+            return False
+        m = strip_noop(n['inner'][0])
+        if m.get('kind') not in ('DeclRefExpr', 'MemberExpr'):
+            return False
+        return self.find_record(re.sub(r'\b(\d+)[uU]?[lL]{0,2}\b', r'\1', t[:-1].strip()))[1] is not None
 
     def is_known_root(self, rid, env):
         e = env
@@ -944,10 +1076,14 @@ class Translator:
     def eval(self, n, env, pre):
         frame = env.frame
         k = n.get('kind')
+        if k == 'SubstNonTypeTemplateParmExpr':
+            return self.eval(n['inner'][-1], env, pre)
         if k in TRANSPARENT:
             return self.eval(n['inner'][0], env, pre)
         if k in ('ImplicitCastExpr', 'CStyleCastExpr', 'CXXStaticCastExpr', 'CXXFunctionalCastExpr', 'CXXConstCastExpr'):
             return self.eval_cast(n, env, pre)
+        if k == 'CXXOperatorCallExpr' and self.is_vec_elem(n):      # phase 2: `v[i]` of a std::vector of scalars
+            return self.vec_read(n, env, pre)
         if k == 'IntegerLiteral':
             v = int(n.get('value'))
             sc = Sc(str(v), 'i')
@@ -1033,6 +1169,10 @@ class Translator:
             m = strip_noop(inner)
             if m.get('kind') == 'ConditionalOperator':
                 return self.eval(m, env, pre)
+            if m.get('kind') == 'CXXOperatorCallExpr' and self.is_vec_elem(m):      # phase 2
+                return self.vec_read(m, env, pre)
+            if m.get('kind') == 'UnaryOperator' and m.get('opcode') in ('++', '--') and not m.get('isPostfix'):      # phase 2: `--n == 0`
+                return self.eval(m, env, pre)
             if m.get('kind') == 'CallExpr':      # a function returning a reference to a scalar (std::min / std::max, ...)
                 return self.eval_call(m, env, pre)
             if m.get('kind') == 'CXXMemberCallExpr':
@@ -1058,6 +1198,9 @@ class Translator:
             frame.need('IntCast', ty)
             return Sc('((%s : Int) : %s)' % (unpar(v.t), TY_LEAN[ty]), ty)
         if ck == 'FloatingCast':
+            nl = self.literal_at(inner, self.tyvar(frame, type_of(n)), frame)      # phase 2: `(float) 0.5` is the literal 0.5
+            if nl is not None:
+                return nl
             v = self.eval(inner, env, pre)
             ty = self.tyvar(frame, type_of(n))
             if ty == v.ty:
@@ -1081,7 +1224,7 @@ class Translator:
         frame = env.frame
         op = n.get('opcode')
         if op in ('++', '--'):
-            raise Untranslatable('increment inside an expression')
+            return self.eval_incr(n, env, pre)      # phase 2 (was: untranslatable)
         v = self.eval(n['inner'][0], env, pre)
         if op == '+':
             return v
@@ -1279,6 +1422,9 @@ class Translator:
                     return Sc(acc, ty)
                 frame.need('Trans', ty)
                 return Sc('(Trans.sqrt %s)' % acc, ty)
+            r2 = self.member_call_phase2(nm, base, bt, n, env, pre)
+            if r2 is not NotImplemented:
+                return r2
             return self.unknown_call(nm, n, env, pre)
         callee = self.callee_ref(n)
         rd = callee.get('referencedDecl') or {}
@@ -1293,6 +1439,14 @@ class Translator:
                 ty = self.tyvar(frame, type_of(n))
                 frame.need('Limits', ty)
                 fld = {'epsilon': 'eps', 'max': 'maxVal', 'lowest': 'lowest', 'min': 'minPos'}[m.group(3)]
+                return Sc('(Limits.%s : %s)' % (fld, TY_LEAN[ty]), ty)
+        if nm in ('epsilon', 'max', 'lowest', 'min') and not args and classify(type_of(n)) in ('double', 'float'):
+            # phase 2: `std::numeric_limits<Scalar>::max()` with a type alias: the floating type is the call's result type
+            m = re.match(r'^\s*(std::)?numeric_limits<\s*(?:typename\s+)?[\w:]+\s*>::(epsilon|max|lowest|min)\s*\(\s*\)\s*$', self.tu.range_text(n))
+            if m:
+                ty = self.tyvar(frame, type_of(n))
+                frame.need('Limits', ty)
+                fld = {'epsilon': 'eps', 'max': 'maxVal', 'lowest': 'lowest', 'min': 'minPos'}[m.group(2)]
                 return Sc('(Limits.%s : %s)' % (fld, TY_LEAN[ty]), ty)
         if nm in self.spec.get('uninterpreted', {}):
             vs = [self.eval(a, env, pre) for a in args]
@@ -1398,7 +1552,24 @@ class Translator:
         try:
             info = self.translate_fn(decl)
         except Untranslatable as e:
-            raise Untranslatable('callee %s: %s' % (self.tu.fqual.get(decl['id'], decl.get('name')), e))
+            info = None
+            if 'is not an integer constant' in str(e):
+                # phase 2: `step_(cellIndexes, 0)` with `v[axis]` inside: the callee is translated once per constant argument
+                parms = [c for c in decl.get('inner', []) or [] if c.get('kind') == 'ParmVarDecl']
+                consts = {}
+                for i, (pd, a) in enumerate(zip(parms, args)):
+                    qt = (pd.get('type') or {}).get('qualType', '')
+                    if classify(type_of(pd)) in ('int', 'uint') and (not qt.rstrip().endswith('&') or re.match(r'^const\b', qt.strip())):
+                        v = self.static_int(a)
+                        if v is not None:
+                            consts[i] = v
+                if consts:
+                    try:
+                        info = self.translate_fn(decl, consts=consts)
+                    except Untranslatable as e2:
+                        raise Untranslatable('callee %s: %s' % (self.tu.fqual.get(decl['id'], decl.get('name')), e2))
+            if info is None:
+                raise Untranslatable('callee %s: %s' % (self.tu.fqual.get(decl['id'], decl.get('name')), e))
         arg_obj = {}
         terms = []
         for (pname, ty, root, path) in info.params:
@@ -1525,6 +1696,9 @@ class Translator:
             return self.eval(n, env, pre)
         m = strip_noop(n)
         k = m.get('kind')
+        r2 = self.eval_obj_phase2(m, k, ct, env, pre)
+        if r2 is not None:
+            return r2
         if k in ('CXXConstructExpr', 'CXXTemporaryObjectExpr'):
             a = [c for c in m.get('inner', []) or [] if c.get('kind') != 'CXXDefaultArgExpr']
             if len(a) == 0:
@@ -1586,6 +1760,664 @@ class Translator:
                     cur[p[-1]] = v
                 return res
         raise Untranslatable('unsupported aggregate expression %s of type %s' % (k, strip_cv(ct)))
+
+    # ================================================================== phase 2 (builder b1): Eigen coefficient-wise expressions,
+    # std::vector of scalars as `List`, unrolled / counted `for` loops
+    EIG_BIN = {'operator+': ('+', 'Add'), 'operator-': ('-', 'Sub'), 'operator*': ('*', 'Mul'), 'operator/': ('/', 'Div')}
+    EIG_CMP = {'operator<': '<', 'operator<=': '<=', 'operator>': '>', 'operator>=': '>=', 'operator==': '==', 'operator!=': '!='}
+    VEC_MUTATORS = ('resize', 'clear', 'push_back', 'assign')
+    HELPERS = {
+        'vecGet?': "/-- `v[i]` of a `std::vector` (element read); `none` = index outside the vector (undefined behaviour in C++) -/\n"
+                   "def vecGet? {β : Type} (v : List β) (i : Int) : Option β := if i < 0 then none else v[i.toNat]?",
+        'vecSet?': "/-- `v[i] = x` on a `std::vector`; `none` = index outside the vector (undefined behaviour in C++) -/\n"
+                   "def vecSet? {β : Type} (v : List β) (i : Int) (x : β) : Option (List β) :=\n"
+                   "  if i < 0 then none else if i.toNat < v.length then some (v.set i.toNat x) else none",
+        'vecResize': "/-- `v.resize(n)` on a `std::vector`: truncated, or extended with value-initialised elements `z` -/\n"
+                     "def vecResize {β : Type} (v : List β) (n : Int) (z : β) : List β := v.take n.toNat ++ List.replicate (n.toNat - v.length) z",
+    }
+
+    def need_helper(self, name):
+        done = getattr(self, 'helpers_done', None)
+        if done is None:
+            done = self.helpers_done = set()
+        if name not in done:
+            done.add(name)
+            self.emit(self.HELPERS[name])
+
+    @staticmethod
+    def is_eigen_type(t):
+        return bool(re.search(r'(Eigen::|\b(Matrix|Array|CwiseBinaryOp|CwiseUnaryOp|CwiseNullaryOp|ArrayWrapper|MatrixWrapper|Block|Transpose)<)', t))
+
+    def eigen_keys(self, ct):
+        """coefficient keys and C++ scalar type of a fixed-size Eigen expression type (the first `Matrix<T, r, c` / `Array<T, r, c`
+        with literal positive sizes inside the type)"""
+        for mm in re.finditer(r'\b(?:Matrix|Array)<\s*([\w ]+?)\s*,\s*(-?\d+)\s*,\s*(-?\d+)', ct):
+            r, c = int(mm.group(2)), int(mm.group(3))
+            if r >= 1 and c >= 1 and r * c <= 64:
+                if c == 1 or r == 1:
+                    return [(i,) for i in range(r * c)], mm.group(1)
+                return [(i, j) for i in range(r) for j in range(c)], mm.group(1)
+        raise Untranslatable('Eigen expression type %s has no small fixed size' % ct[:120])
+
+    def literal_at(self, n, ty, frame):
+        """`(float) 0.5`, `arrayOfFloat - 0.5`: a floating LITERAL (not from a macro) of ANOTHER floating type whose decimal value is
+        exactly representable with a 24-bit significand and a small exponent (exact in binary32 and binary64) is that literal
+        at the type `ty` it is converted to; None in every other case"""
+        m = strip_noop(n)
+        if m.get('kind') != 'FloatingLiteral' or ty not in ('a', 'd'):
+            return None
+        try:
+            if self.tyvar(frame, type_of(m)) == ty:
+                return None
+            loc = (m.get('range') or {}).get('begin') or {}
+            if self.tu.macro_name(loc) is not None:
+                return None
+            mant, e = decimal_literal(self.tu.text(loc))
+        except Untranslatable:
+            return None
+        from fractions import Fraction
+        q = Fraction(mant, 10 ** e)
+        den, num = q.denominator, q.numerator
+        if den & (den - 1) or den > 2 ** 60 or num >= 2 ** 60:
+            return None
+        if num and num.bit_length() - ((num & -num).bit_length() - 1) > 24:
+            return None
+        if e == 0:
+            frame.need('NatCast', ty)
+            return Sc('((%d : Nat) : %s)' % (mant, TY_LEAN[ty]), ty)
+        frame.need('OfScientific', ty)
+        return Sc('(OfScientific.ofScientific %d true %d : %s)' % (mant, e, TY_LEAN[ty]), ty)
+
+    def num_to(self, v, ty, frame):
+        """implicit conversion of a scalar operand to the coefficient type `ty` of an Eigen expression"""
+        if v.ty == ty:
+            return v
+        if v.ty == 'i' and ty in ('a', 'd'):
+            lit = getattr(v, 'lit', None)
+            if lit is not None and lit >= 0:
+                frame.need('NatCast', ty)
+                return Sc('((%d : Nat) : %s)' % (lit, TY_LEAN[ty]), ty)
+            if lit is not None:
+                frame.need('NatCast', ty)
+                frame.need('Neg', ty)
+                return Sc('(-((%d : Nat) : %s))' % (-lit, TY_LEAN[ty]), ty)
+            frame.need('IntCast', ty)
+            return Sc('((%s : Int) : %s)' % (unpar(v.t), TY_LEAN[ty]), ty)
+        if v.ty in ('a', 'd') and ty in ('a', 'd'):
+            frame.classes.add(('DoubleConv', 'a'))
+            frame.top().uses_delta = True
+            if ty == 'd':
+                return Sc('(DoubleConv.up %s : δ)' % par(v.t), 'd')
+            return Sc('(DoubleConv.down %s : α)' % par(v.t), 'a')
+        if v.ty in ('a', 'd') and ty == 'i':
+            frame.need('Trunc', v.ty)
+            return Sc('(Trunc.trunc %s)' % par(v.t), 'i')
+        raise Untranslatable('conversion of %s to the coefficient type of an Eigen expression' % v.t)
+
+    def getter_member(self, n):
+        """name of the member `m` if the called method's whole body is `return m;` / `return this->m;` and it returns a
+        reference (None otherwise)"""
+        callee = self.callee_ref(n)
+        decl = self.function_def(callee.get('referencedMemberDecl'))
+        if decl is None or len(n.get('inner', [])) != 1:
+            return None
+        rt = ((decl.get('type') or {}).get('qualType') or '').split('(')[0].strip()
+        if not rt.endswith('&'):
+            return None
+        body = [c for c in decl.get('inner', []) or [] if c.get('kind') == 'CompoundStmt']
+        st = (body[0].get('inner') or []) if body else []
+        if len(st) != 1 or st[0].get('kind') != 'ReturnStmt' or not st[0].get('inner'):
+            return None
+        e = strip_noop(st[0]['inner'][0])
+        if e.get('kind') == 'MemberExpr' and e.get('inner') and strip_noop(e['inner'][0]).get('kind') == 'CXXThisExpr':
+            return e.get('name')
+        return None
+
+    def cwise_operand(self, x, env, pre):
+        if classify(type_of(x)) == 'agg':
+            return self.eval_obj(x, env, pre)
+        return self.eval(x, env, pre)
+
+    def cwise_operands(self, x, y, env, pre):
+        """both operands of a coefficient-wise binary operation; a floating literal operand is read at the other operand's
+        coefficient type when that is exact (Eigen converts the scalar operand to the expression's scalar type first)"""
+        xs, ys = classify(type_of(x)) != 'agg', classify(type_of(y)) != 'agg'
+        if xs != ys and strip_noop(x if xs else y).get('kind') == 'FloatingLiteral':
+            O = self.eval_obj(y if xs else x, env, pre)
+            lv = leaves(O) if isinstance(O, dict) else []
+            lit = self.literal_at(x if xs else y, lv[0][1].ty, env.frame) if lv else None
+            if lit is None:
+                lit = self.eval(x if xs else y, env, pre)
+            return (lit, O) if xs else (O, lit)
+        return self.cwise_operand(x, env, pre), self.cwise_operand(y, env, pre)
+
+    def cwise2(self, A, B, fn, frame):
+        """coefficient-wise combination of two operands, a scalar operand being broadcast (converted to the coefficient type)"""
+        if isinstance(A, Sc) and isinstance(B, Sc):
+            raise Untranslatable('coefficient-wise operation on two scalars')
+        obj = A if isinstance(A, dict) else B
+        if not obj or not all(isinstance(v, Sc) for v in obj.values()):
+            raise Untranslatable('coefficient-wise operation on an object without known coefficients')
+        if isinstance(A, dict) and isinstance(B, dict) and set(A.keys()) != set(B.keys()):
+            raise Untranslatable('coefficient-wise operation on objects of different shapes')
+        res = {}
+        for kk in obj:
+            a = A[kk] if isinstance(A, dict) else A
+            b = B[kk] if isinstance(B, dict) else B
+            if not isinstance(a, Sc) or not isinstance(b, Sc):
+                raise Untranslatable('coefficient-wise operation on nested objects')
+            if isinstance(A, Sc):
+                a = self.num_to(a, b.ty, frame)
+            if isinstance(B, Sc):
+                b = self.num_to(b, a.ty, frame)
+            if a.ty != b.ty:
+                raise Untranslatable('coefficient-wise operation on different scalar types')
+            res[kk] = fn(a, b)
+        return res
+
+    def sc_minmax(self, nm, a, b, frame):
+        """Eigen's scalar_min_op / scalar_max_op = std::min / std::max (also the SSE packet versions of Eigen 3.4):
+        min(a,b) = (b < a) ? b : a ; max(a,b) = (a < b) ? b : a"""
+        if a.ty in ('a', 'd'):
+            frame.need('LT', a.ty)
+            frame.need('DecidableLT', a.ty)
+        c = '%s < %s' % ((par(b.t), par(a.t)) if nm == 'min' else (par(a.t), par(b.t)))
+        return Sc('(if %s then %s else %s)' % (c, unpar(b.t), unpar(a.t)), a.ty)
+
+    def sc_cmp(self, op, a, b, frame):
+        fmt, cls = self.CMP[op]
+        if op in ('>', '>='):
+            a, b = b, a
+        if cls == 'EQ':
+            if a.ty in ('a', 'd'):
+                frame.need('DecidableEq', a.ty)
+        else:
+            frame.need(cls, a.ty)
+            frame.need('Decidable' + cls, a.ty)
+        return Sc('(' + fmt % (par(a.t), par(b.t)) + ')', 'p')
+
+    def sc_arith(self, op, cls, a, b, frame):
+        if a.ty == 'i':
+            if op in ('+', '-', '*'):
+                return Sc('(%s %s %s)' % (par(a.t), op, par(b.t)), 'i')
+            return Sc('(Int.tdiv %s %s)' % (par(a.t), par(b.t)), 'i')
+        frame.need(cls, a.ty)
+        return Sc('(%s %s %s)' % (par(a.t), op, par(b.t)), a.ty)
+
+    def eval_obj_phase2(self, m, k, ct, env, pre):
+        """aggregate expressions added in phase 2 (None = not one of them)"""
+        frame = env.frame
+        if k in ('CXXConstructExpr', 'CXXTemporaryObjectExpr') and vec_elem(ct) is not None:
+            return self.vector_construct(m, ct, env, pre)
+        if k == 'CXXMemberCallExpr':
+            callee = self.callee_ref(m)
+            nm = callee.get('name')
+            base = callee['inner'][0] if callee.get('inner') else None
+            if base is None:
+                return None
+            bt = type_of(base)
+            args = m['inner'][1:]
+            if self.is_eigen_type(ct) and self.getter_member(m) is not None:
+                root, path = self.resolve_lvalue(m, env)
+                return self.read_obj(env, root, path, ct)
+            if not self.is_eigen_type(bt) or self.method_def(callee.get('referencedMemberDecl')) is not None:
+                return None
+            if nm in ('array', 'matrix', 'eval') and not args:
+                return self.eval_obj(base, env, pre)
+            if nm == 'cast' and not args:
+                mm = re.search(r'scalar_cast_op<\s*([\w ]+?)\s*,\s*([\w ]+?)\s*>', ct)
+                if not mm:
+                    raise Untranslatable('cast<>() without a recognisable target type')
+                obj = self.eval_obj(base, env, pre)
+                if not isinstance(obj, dict) or not all(isinstance(v, Sc) for v in obj.values()):
+                    raise Untranslatable('cast<>() of an object without known coefficients')
+                return {kk: self.convert(v, frame, mm.group(2)) for kk, v in obj.items()}
+            if nm in ('min', 'max', 'cwiseMin', 'cwiseMax') and len(args) == 1:
+                which = 'min' if nm in ('min', 'cwiseMin') else 'max'
+                A = self.eval_obj(base, env, pre)
+                B = self.cwise_operand(args[0], env, pre)
+                return self.cwise2(A, B, lambda a, b: self.sc_minmax(which, a, b, frame), frame)
+            if nm in ('abs', 'cwiseAbs', 'sqrt', 'cwiseSqrt', 'floor', 'ceil') and not args:
+                fn = {'cwiseAbs': 'abs', 'cwiseSqrt': 'sqrt'}.get(nm, nm)
+                obj = self.eval_obj(base, env, pre)
+                return self.cwise1(obj, fn, frame)
+            if nm == 'transpose' and not args:
+                obj = self.eval_obj(base, env, pre)
+                if not isinstance(obj, dict) or not obj or not all(isinstance(kk, tuple) and len(kk) == 2 for kk in obj):
+                    raise Untranslatable('transpose() of an object that is not a matrix with known coefficients')
+                return {(kk[1], kk[0]): v for kk, v in obj.items()}
+            if nm in ('col', 'row') and len(args) == 1:
+                obj = self.eval_obj(base, env, pre)
+                j = self.const_int(args[0], env)
+                if not isinstance(obj, dict) or not obj or not all(isinstance(kk, tuple) and len(kk) == 2 for kk in obj):
+                    raise Untranslatable('%s() of an object that is not a matrix with known coefficients' % nm)
+                res = {(kk[0] if nm == 'col' else kk[1],): v for kk, v in obj.items() if (kk[1] if nm == 'col' else kk[0]) == j}
+                if not res:
+                    raise Untranslatable('%s(%d) outside the matrix' % (nm, j))
+                return res
+            if nm in ('head', 'tail', 'segment') and len(args) <= 2:
+                obj = self.eval_obj(base, env, pre)
+                if not isinstance(obj, dict) or not obj or not all(isinstance(kk, tuple) and len(kk) == 1 for kk in obj):
+                    raise Untranslatable('%s() of an object that is not a vector with known coefficients' % nm)
+                targs = [int(x) for x in re.findall(r'-?\d+', (re.search(r'%s<([^<>]*)>' % nm, self.tu.range_text(m)) or [None, ''])[1])]
+                nums = targs + [self.const_int(a, env) for a in args]
+                size = len(obj)
+                if nm == 'segment' and len(nums) == 2:
+                    lo, cnt = (nums[1], nums[0]) if targs else (nums[0], nums[1])
+                elif nm == 'head' and len(nums) == 1:
+                    lo, cnt = 0, nums[0]
+                elif nm == 'tail' and len(nums) == 1:
+                    lo, cnt = size - nums[0], nums[0]
+                else:
+                    raise Untranslatable('%s() with these arguments' % nm)
+                if lo < 0 or cnt < 1 or lo + cnt > size:
+                    raise Untranslatable('%s() outside the vector' % nm)
+                return {(i,): obj[(lo + i,)] for i in range(cnt)}
+            if nm == 'block' and len(args) in (2, 4):
+                bb = strip_noop(base)
+                if bb.get('kind') in ('DeclRefExpr', 'MemberExpr') and bb.get('valueCategory') == 'lvalue':
+                    # a block of a variable: only the coefficients of the block are read
+                    keys, st = self.eigen_keys(type_of(base))
+                    root, path = self.resolve_lvalue(bb, env)
+                    ty = self.tyvar(frame, st)
+                    return {sub: self.read_leaf(env, root, list(path) + [bk], ty) for sub, bk in self.block_map(m, {kk: None for kk in keys}, env)}
+                obj = self.eval_obj(base, env, pre)
+                return {sub: obj[bk] for sub, bk in self.block_map(m, obj, env)}
+            if nm in ('cwiseProduct', 'cwiseQuotient') and len(args) == 1:
+                op, cls = ('*', 'Mul') if nm == 'cwiseProduct' else ('/', 'Div')
+                A = self.eval_obj(base, env, pre)
+                B = self.eval_obj(args[0], env, pre)
+                return self.cwise2(A, B, lambda a, b: self.sc_arith(op, cls, a, b, frame), frame)
+            return None
+        if k == 'CallExpr':
+            callee = self.callee_ref(m)
+            nm = (callee.get('referencedDecl') or {}).get('name') or callee.get('name')
+            args = m['inner'][1:]
+            if nm in LIBM1 and len(args) == 1 and self.is_eigen_type(type_of(args[0])) and classify(type_of(args[0])) == 'agg' \
+                    and 'CwiseUnaryOp<' in ct:
+                return self.cwise1(self.eval_obj(args[0], env, pre), LIBM1[nm], frame)
+            if nm == 'Constant' and len(args) == 1 and 'CwiseNullaryOp<' in ct and 'scalar_constant_op<' in ct:
+                keys, st = self.eigen_keys(ct)
+                v = self.num_to(self.eval(args[0], env, pre), self.tyvar(frame, st), frame)
+                return {kk: v for kk in keys}
+            return None
+        if k == 'CXXOperatorCallExpr' and self.is_vec_elem(m):
+            return self.vec_read(m, env, pre)
+        if k == 'CXXOperatorCallExpr':
+            nm = (self.callee_ref(m).get('referencedDecl') or {}).get('name')
+            ops = m['inner'][1:]
+            if nm in self.EIG_BIN and len(ops) == 2 and 'CwiseBinaryOp<' in ct and 'Product<' not in ct.split('CwiseBinaryOp<')[0]:
+                op, cls = self.EIG_BIN[nm]
+                A, B = self.cwise_operands(ops[0], ops[1], env, pre)
+                return self.cwise2(A, B, lambda a, b: self.sc_arith(op, cls, a, b, frame), frame)
+            if nm in self.EIG_CMP and len(ops) == 2 and 'CwiseBinaryOp<' in ct:
+                op = self.EIG_CMP[nm]
+                A, B = self.cwise_operands(ops[0], ops[1], env, pre)
+                return self.cwise2(A, B, lambda a, b: self.sc_cmp(op, a, b, frame), frame)
+            if nm == 'operator-' and len(ops) == 1 and 'CwiseUnaryOp<' in ct:
+                obj = self.eval_obj(ops[0], env, pre)
+                if not isinstance(obj, dict) or not all(isinstance(v, Sc) for v in obj.values()):
+                    raise Untranslatable('negation of an object without known coefficients')
+                res = {}
+                for kk, v in obj.items():
+                    frame.need('Neg', v.ty)
+                    res[kk] = Sc('(-%s)' % par(v.t), v.ty)
+                return res
+            return None
+        return None
+
+    def block_map(self, m, obj, env):
+        """[(key inside the block, key of the underlying matrix)] of `M.block<R, C>(i, j)` / `M.block(i, j, R, C)` with constant
+        arguments on a matrix whose coefficient keys are those of `obj`"""
+        callee = self.callee_ref(m)
+        args = m['inner'][1:]
+        if not isinstance(obj, dict) or not obj or not all(isinstance(kk, tuple) and len(kk) == 2 for kk in obj):
+            raise Untranslatable('block() of an object that is not a matrix with known coefficients')
+        targs = [int(x) for x in re.findall(r'-?\d+', (re.search(r'block\s*<([^<>]*)>', self.tu.range_text(m)) or [None, ''])[1])]
+        nums = [self.const_int(a, env) for a in args]
+        if len(nums) == 4 and not targs:
+            i0, j0, R, C = nums
+        elif len(nums) == 2 and len(targs) == 2:
+            (i0, j0), (R, C) = nums, targs
+        else:
+            raise Untranslatable('block() with these arguments')
+        out = []
+        for i in range(R):
+            for j in range(C):
+                if (i0 + i, j0 + j) not in obj:
+                    raise Untranslatable('block() outside the matrix')
+                out.append(((i, j), (i0 + i, j0 + j)))
+        return out
+
+    def block_assign(self, lhs, rhs, env, k):
+        """`M.block<R, C>(i, j) = expr;` : the coefficients of the block are written one by one"""
+        pre = []
+        e2 = env.copy()
+        lhs = strip_noop(lhs)
+        callee = self.callee_ref(lhs)
+        base = callee['inner'][0]
+        val = self.eval_obj(rhs, e2, pre)
+        root, path = self.resolve_lvalue(base, e2)
+        keys, st = self.eigen_keys(type_of(base))
+        bm = self.block_map(lhs, {kk: None for kk in keys}, e2)
+        if not isinstance(val, dict) or set(val.keys()) != set(sub for sub, _ in bm):
+            raise Untranslatable('block assignment from an object of another shape')
+        obj = {bk: val[sub] for sub, bk in bm}
+        # bind_obj on the whole matrix would need the other coefficients: write leaf by leaf
+        def go(items, e):
+            if not items:
+                return k(e)
+            bk, v = items[0]
+            return self.bind_obj(e, root, list(path) + [bk], v, lambda e3: go(items[1:], e3))
+        return self.wrap(pre, go(sorted(obj.items()), e2))
+
+    def cwise1(self, obj, fn, frame):
+        if not isinstance(obj, dict) or not obj or not all(isinstance(v, Sc) for v in obj.values()):
+            raise Untranslatable('coefficient-wise function of an object without known coefficients')
+        res = {}
+        for kk, v in obj.items():
+            if v.ty == 'i' and fn == 'abs':
+                res[kk] = Sc('((Int.natAbs %s : Nat) : Int)' % par(v.t), 'i')
+                continue
+            if v.ty not in ('a', 'd'):
+                raise Untranslatable('coefficient-wise libm function on non-floating coefficients')
+            frame.need('Trans', v.ty)
+            res[kk] = Sc('(Trans.%s %s)' % (fn, par(v.t)), v.ty)
+        return res
+
+    def member_call_phase2(self, nm, base, bt, n, env, pre):
+        """member calls without a body in the translation unit, with a scalar result or used as statements (phase 2)"""
+        frame = env.frame
+        args = n['inner'][1:]
+        if base is not None and self.is_eigen_type(bt) and nm in ('all', 'any') and not args:
+            obj = self.eval_obj(base, env, pre)
+            lv = leaves(obj) if isinstance(obj, dict) else []
+            if not lv:
+                raise Untranslatable('%s() of an object without known coefficients' % nm)
+            acc = self.as_prop(lv[0][1])
+            for _, sc in lv[1:]:
+                acc = '(%s %s %s)' % (par(acc), '∧' if nm == 'all' else '∨', par(self.as_prop(sc)))
+            return Sc(acc, 'p')
+        if base is not None and self.is_eigen_type(bt) and nm in ('sum', 'prod', 'minCoeff', 'maxCoeff') and not args:
+            obj = self.eval_obj(base, env, pre)
+            lv = leaves(obj) if isinstance(obj, dict) else []
+            if not lv:
+                raise Untranslatable('%s() of an object without known coefficients' % nm)
+            if nm == 'prod' and all(sc.ty in ('p', 'b') for _, sc in lv):      # product of booleans = conjunction
+                acc = self.as_prop(lv[0][1])
+                for _, sc in lv[1:]:
+                    acc = '(%s ∧ %s)' % (par(acc), par(self.as_prop(sc)))
+                return Sc(acc, 'p')
+            acc = lv[0][1]
+            for _, sc in lv[1:]:      # Eigen's default (unvectorised, left-to-right) redux — trusted reading, as for norm()
+                if sc.ty != acc.ty:
+                    raise Untranslatable('reduction over different scalar types')
+                if nm == 'sum':
+                    acc = self.sc_arith('+', 'Add', acc, sc, frame)
+                elif nm == 'prod':
+                    acc = self.sc_arith('*', 'Mul', acc, sc, frame)
+                else:
+                    acc = self.sc_minmax('min' if nm == 'minCoeff' else 'max', acc, sc, frame)
+            return acc
+        if base is not None and self.is_eigen_type(bt) and nm in ('setConstant', 'setZero', 'setOnes') and len(args) == (1 if nm == 'setConstant' else 0):
+            keys, st = self.eigen_keys(bt)
+            ty = self.tyvar(frame, st)
+            if nm == 'setConstant':
+                v = self.num_to(self.eval(args[0], env, pre), ty, frame)
+            else:
+                frame.need('NatCast', ty)
+                v = Sc('((%d : Nat) : %s)' % (1 if nm == 'setOnes' else 0, TY_LEAN[ty]), ty) if ty in ('a', 'd') else Sc('1' if nm == 'setOnes' else '0', 'i')
+            root, path = self.resolve_lvalue(base, env)
+            self.write(env, root, path, {kk: v for kk in keys})
+            return None
+        if base is not None and self.is_list(bt):
+            root, path = self.resolve_lvalue(base, env)
+            lty = self.tyvar(frame, bt)
+            if lty[0] == 'L' and nm not in ('size', 'empty'):
+                return NotImplemented
+            cur = self.read_leaf(env, root, path, lty)
+            if nm == 'size' and not args:
+                return Sc('(%s.length : Int)' % par(cur.t), 'i')
+            if nm == 'empty' and not args:
+                return Sc('(%s = [])' % par(cur.t), 'p') if False else Sc('(%s.length = 0)' % par(cur.t), 'p')
+            if nm == 'resize' and len(args) == 1:
+                self.need_helper('vecResize')
+                cnt = self.eval(args[0], env, pre)
+                if cnt.ty != 'i':
+                    raise Untranslatable('resize() with a non-integer count')
+                new = 'vecResize %s %s %s' % (par(cur.t), par(cnt.t), self.zero_of(lty[1], frame))
+            elif nm == 'clear' and not args:
+                new = '([] : %s)' % TY_LEAN[lty]
+            elif nm == 'push_back' and len(args) == 1:
+                v = self.coerce(self.eval(args[0], env, pre), lty[1])
+                new = '%s ++ [%s]' % (par(cur.t), unpar(v.t))
+            else:
+                return NotImplemented
+            name = frame.fresh(path_name(self.root_name(frame, root), path))
+            pre.append(('let', name, new))
+            self.write(env, root, path, Sc(name, lty))
+            return None
+        return NotImplemented
+
+    def zero_of(self, ty, frame):
+        if ty in ('a', 'd'):
+            frame.need('NatCast', ty)
+            return '((0 : Nat) : %s)' % TY_LEAN[ty]
+        if ty == 'i':
+            return '0'
+        if ty == 'b':
+            return 'false'
+        raise Untranslatable('value-initialised element of type %s' % ty)
+
+    def vector_construct(self, m, ct, env, pre):
+        """`std::vector<T>()`, `std::vector<T>(n)` with a literal n: scalars -> a list of n zeros; T = std::vector<scalar> -> an
+        aggregate of n empty lists (addressed with constant indices only)"""
+        frame = env.frame
+        a = [c for c in m.get('inner', []) or [] if c.get('kind') != 'CXXDefaultArgExpr']
+        et = vec_elem(ct)
+        if classify(ct) == 'list':
+            lty = self.tyvar(frame, ct)
+            if not a:
+                return Sc('([] : %s)' % TY_LEAN[lty], lty)
+            if len(a) == 1 and classify(type_of(a[0])) in ('int', 'uint'):
+                cnt = self.eval(a[0], env, pre)
+                return Sc('(List.replicate (Int.toNat %s) %s)' % (par(cnt.t), self.zero_of(lty[1], frame)), lty)
+            if len(a) == 1 and classify(type_of(a[0])) == 'list':
+                return self.eval(a[0], env, pre)
+            raise Untranslatable('std::vector constructor with these arguments')
+        if classify(et) == 'list':
+            if not a:
+                return {}
+            if len(a) == 1 and classify(type_of(a[0])) in ('int', 'uint'):
+                cnt = self.eval(a[0], env, pre)
+                if getattr(cnt, 'lit', None) is None or not 0 <= cnt.lit <= 16:
+                    raise Untranslatable('std::vector of vectors with a non-constant size')
+                lty = self.tyvar(frame, et)
+                return {(i,): Sc('([] : %s)' % TY_LEAN[lty], lty) for i in range(cnt.lit)}
+        raise Untranslatable('constructor of %s' % strip_cv(ct))
+
+    def is_vec_elem(self, n):
+        n = strip_noop(n)
+        if n.get('kind') != 'CXXOperatorCallExpr' or len(n.get('inner', [])) != 3:
+            return False
+        if (self.callee_ref(n).get('referencedDecl') or {}).get('name') != 'operator[]':
+            return False
+        return self.is_list(type_of(n['inner'][1]))
+
+    def is_list(self, ctype):
+        """std::vector of scalars, or of small fixed-size vectors of one scalar type"""
+        if classify(ctype) == 'list':
+            return True
+        if vec_elem(ctype) is None or classify(vec_elem(ctype)) != 'agg':
+            return False
+        try:
+            sh = self.shape_of(vec_elem(ctype))
+        except Untranslatable:
+            return False
+        return 2 <= len(sh) <= 4 and len(set(strip_cv(st) for _, st in sh)) == 1 and all(len(p_) == 1 for p_, _ in sh) \
+            and classify(sh[0][1]) in ('double', 'float', 'int', 'uint')
+
+    def set_partial(self, frame):
+        f = frame
+        while f is not None:
+            f.opt = True
+            f = f.parent
+
+    def vec_read(self, n, env, pre):
+        """`v[i]` (read) of a std::vector of scalars: `vecGet? v i`, the function's result being `none` if `i` is outside `v`"""
+        frame = env.frame
+        n = strip_noop(n)
+        root, path = self.resolve_lvalue(n['inner'][1], env)
+        lty = self.tyvar(frame, type_of(n['inner'][1]))
+        cur = self.read_leaf(env, root, path, lty)
+        idx = self.eval(n['inner'][2], env, pre)
+        if idx.ty != 'i':
+            raise Untranslatable('vector index that is not an integer')
+        self.need_helper('vecGet?')
+        self.set_partial(frame)
+        name = frame.fresh(path_name(self.root_name(frame, root), path) + '_at')
+        pre.append(('bind', name, 'vecGet? %s %s' % (par(cur.t), par(idx.t))))
+        if lty[0] == 'L':      # an element that is a small vector: its coordinates
+            cnt = int(lty[1])
+            return {(i,): Sc(tuple_proj(name, i, cnt), lty[2]) for i in range(cnt)}
+        return Sc(name, lty[1])
+
+    def exec_vec_assign(self, lhs, rhs, op, node, env, k):
+        frame = env.frame
+        lhs = strip_noop(lhs)
+        pre = []
+        v = self.eval(rhs, env, pre)
+        root, path = self.resolve_lvalue(lhs['inner'][1], env)
+        lty = self.tyvar(frame, type_of(lhs['inner'][1]))
+        cur = self.read_leaf(env, root, path, lty)
+        idx = self.eval(lhs['inner'][2], env, pre)
+        if idx.ty != 'i':
+            raise Untranslatable('vector index that is not an integer')
+        if op or lty[0] == 'L':
+            raise Untranslatable('compound assignment to a vector element / assignment to an element that is a vector')
+        v = self.coerce(v, lty[1])
+        self.need_helper('vecSet?')
+        self.set_partial(frame)
+        name = frame.fresh(path_name(self.root_name(frame, root), path))
+        self.write(env, root, path, Sc(name, lty))
+        return self.wrap(pre, ('bind', name, 'vecSet? %s %s %s' % (par(cur.t), par(idx.t), par(v.t)), k(env)))
+
+    # ---- for loops with a constant trip count (unrolled) / a loop-invariant bound (counted)
+    def for_parts(self, init, cond, inc, body):
+        """(decl of the loop variable, bound expression, comparison) of `for (T i = a; i < b; ++i)` / `i++`, T an integer type,
+        whose body does not assign `i` and contains no `break`; None otherwise"""
+        if not init or not cond or not inc or init.get('kind') != 'DeclStmt' or not init.get('inner'):
+            return None
+        i0 = strip_noop(inc)
+        tgt = strip_noop(i0['inner'][0]) if i0.get('kind') == 'UnaryOperator' and i0.get('inner') else {}
+        tid = (tgt.get('referencedDecl') or {}).get('id') if tgt.get('kind') == 'DeclRefExpr' else None
+        cands = [d for d in init['inner'] if d.get('kind') == 'VarDecl' and d.get('id') == tid]
+        if len(cands) != 1 or any(d.get('kind') != 'VarDecl' for d in init['inner']):
+            return None      # (`for (size_t n = 0, N = v.size(); n < N; ++n)`: the variable that is incremented)
+        v = cands[0]
+        if classify(type_of(v)) not in ('int', 'uint') or v.get('storageClass'):
+            return None
+        vid = v['id']
+
+        def is_var(x):
+            x = strip_noop(x)
+            while x.get('kind') == 'ImplicitCastExpr' and x.get('castKind') in ('LValueToRValue', 'IntegralCast') and x.get('inner'):
+                x = strip_noop(x['inner'][0])
+            return x.get('kind') == 'DeclRefExpr' and (x.get('referencedDecl') or {}).get('id') == vid
+        c = strip_noop(cond)
+        if c.get('kind') != 'BinaryOperator' or c.get('opcode') != '<' or not is_var(c['inner'][0]):
+            return None
+        i = strip_noop(inc)
+        if i.get('kind') != 'UnaryOperator' or i.get('opcode') != '++' or not is_var(i['inner'][0]):
+            return None
+        if self.contains(body, ('BreakStmt', 'ReturnStmt', 'GotoStmt')):
+            return None
+
+        def writes(x):
+            kd = x.get('kind')
+            if ((kd == 'BinaryOperator' and x.get('opcode') == '=') or kd == 'CompoundAssignOperator' or
+                    (kd == 'UnaryOperator' and x.get('opcode') in ('++', '--', '&'))) and is_var(x['inner'][0]):
+                return True
+            if kd == 'DeclRefExpr' and (x.get('referencedDecl') or {}).get('id') == vid and x.get('valueCategory') == 'lvalue' \
+                    and not x.get('_rv'):
+                pass
+            return any(writes(y) for y in x.get('inner', []) or [] if isinstance(y, dict))
+        if writes(body) or self.binds_nonconst_ref(body, vid):
+            return None
+        return v, c['inner'][1]
+
+    def binds_nonconst_ref(self, body, vid):
+        """is the variable passed / bound to a non-const reference anywhere in the body (then it may be modified)?"""
+        def refs(x, under_rvalue):
+            kd = x.get('kind')
+            if kd == 'ImplicitCastExpr' and x.get('castKind') == 'LValueToRValue':
+                return False      # a read
+            if kd == 'DeclRefExpr' and (x.get('referencedDecl') or {}).get('id') == vid:
+                return 'const' not in ((x.get('type') or {}).get('qualType') or '')      # an lvalue use that is not a read
+            return any(refs(y, under_rvalue) for y in x.get('inner', []) or [] if isinstance(y, dict))
+        return refs(body, False)
+
+    def static_for(self, init, cond, inc, body, env):
+        """(decl, first, last+1) when both bounds are integer constants and the trip count is at most 16"""
+        fp = self.for_parts(init, cond, inc, body)
+        if fp is None or self.contains(body, ('ContinueStmt',)) or len(init.get('inner', [])) != 1:
+            return None
+        v, bound = fp
+        ini = [c for c in v.get('inner', []) or [] if 'Expr' in c.get('kind', '') or 'Literal' in c.get('kind', '')]
+        if len(ini) != 1:
+            return None
+        try:
+            a = self.eval(ini[0], env.copy(), [])
+            b = self.eval(bound, env.copy(), [])
+        except Untranslatable:
+            return None
+        la, lb = getattr(a, 'lit', None), getattr(b, 'lit', None)
+        if la is None or lb is None or lb - la > 16:
+            return None
+        return v, la, lb
+
+    def exec_unrolled(self, st, body, env, k):
+        v, la, lb = st
+        vid = v['id']
+        env = env.copy()
+        env.frame.top().root_names.setdefault(vid, v.get('name', 'i'))
+        env.local_roots.add(vid)
+
+        def it(i, e):
+            e = e.copy()
+            e.vars[vid] = sc_lit(Sc(str(i), 'i'), i)
+            if i >= lb:
+                return k(e)
+            return ('note', 'for %s = %d (loop with the constant bounds %d ≤ %s < %d, unrolled)' % (v.get('name'), i, la, v.get('name'), lb),
+                    self.exec_stmt(body, e, lambda e2: it(i + 1, e2)))
+        return it(la, env)
+
+    def counted_for(self, init, cond, inc, body):
+        fp = self.for_parts(init, cond, inc, body)
+        return None if fp is None else fp[0]['id']
+
+    def counted_trip(self, vid, cond_n, carried, pats, env, EL):
+        """Lean term (a Nat) of the trip count of a counted loop, or None when the bound is not loop-invariant"""
+        if (vid, ()) not in carried:
+            return None
+        bound_n = strip_noop(cond_n)['inner'][1]
+        pc = []
+        try:
+            bl = self.eval(bound_n, EL, pc)
+            bo = self.eval(bound_n, env, pc)
+        except Untranslatable:
+            return None
+        if pc or bl.ty != 'i' or bo.ty != 'i':
+            return None
+        carried_names = set(pn for pn, _ in pats)
+        if carried_names & set(self.IDENT.findall(bl.t)):
+            return None
+        start = self.lookup(env, vid, [])
+        if not isinstance(start, Sc) or start.ty != 'i':
+            return None
+        if getattr(start, 'lit', None) == 0 or start.t == '0':
+            return 'Int.toNat %s' % par(bo.t)
+        return 'Int.toNat (%s - %s)' % (par(bo.t), par(start.t))
 
     # ------------------------------------------------------------------ statements (continuation-passing; result: tree)
     # trees: ('let', name, term|tree, body) ('bind', name, term, body) ('if', cond, t, e) ('ret', term) ('hole', i)
@@ -1666,6 +2498,12 @@ class Translator:
             if len(inner) != 5 or inner[1]:
                 raise Untranslatable('for statement with a condition variable')
             init, _, cond, inc, body = inner
+            st = self.static_for(init, cond, inc, body, env)      # phase 2: constant trip count -> unrolled
+            if st is not None:
+                return self.exec_unrolled(st, body, env, k)
+            cv = self.counted_for(init, cond, inc, body)          # phase 2: `for (T i = a; i < b; ++i)` -> recursion on the trip count
+            if cv is not None:
+                return self.exec_stmt(init, env, lambda e: self.exec_loop(cond, body, inc, e, k, counted=cv))
             go = lambda e: self.exec_loop(cond if cond else None, body, inc if inc else None, e, k)
             if init:
                 return self.exec_stmt(init, env, go)
@@ -1695,11 +2533,25 @@ class Translator:
         if kind == 'CXXOperatorCallExpr':
             callee = self.callee_ref(s)
             nm = (callee.get('referencedDecl') or {}).get('name')
+            if nm == 'operator=' and strip_noop(s['inner'][1]).get('kind') == 'CXXMemberCallExpr' \
+                    and self.callee_ref(strip_noop(s['inner'][1])).get('name') == 'block':      # phase 2
+                return self.block_assign(s['inner'][1], s['inner'][2], env, k)
             if nm == 'operator=':
                 pre = []
                 obj = self.eval_obj(s['inner'][2], env, pre)
                 root, path = self.resolve_lvalue(s['inner'][1], env)
                 e2 = env.copy()
+                return self.wrap(pre, self.bind_obj(e2, root, path, obj, k))
+            if nm in ('operator+=', 'operator-=', 'operator*=', 'operator/=') and len(s['inner']) == 3 and self.is_eigen_type(type_of(s['inner'][1])):
+                # phase 2: `a += b`, `a.array() += b`, `a /= s` on fixed-size Eigen objects: coefficient-wise
+                pre = []
+                e2 = env.copy()
+                op, cls = self.EIG_BIN['operator' + nm[len('operator')]]
+                A, B = self.cwise_operands(s['inner'][1], s['inner'][2], e2, pre)
+                if 'Product<' in type_of(s['inner'][2]) or not isinstance(A, dict):
+                    raise Untranslatable('operator call statement %s with a matrix product' % nm)
+                obj = self.cwise2(A, B, lambda a, b: self.sc_arith(op, cls, a, b, e2.frame), e2.frame)
+                root, path = self.resolve_lvalue(s['inner'][1], e2)
                 return self.wrap(pre, self.bind_obj(e2, root, path, obj, k))
             raise Untranslatable('operator call statement %s' % nm)
         if kind in ('CallExpr', 'CXXMemberCallExpr'):
@@ -1759,7 +2611,8 @@ class Translator:
             if not init:
                 raise Untranslatable('reference `%s` without initialiser' % name)
             tgt = strip_noop(init[0])
-            if tgt.get('valueCategory') == 'lvalue' and tgt.get('kind') in ('DeclRefExpr', 'MemberExpr', 'CXXOperatorCallExpr', 'ArraySubscriptExpr', 'CXXMemberCallExpr'):
+            if tgt.get('valueCategory') == 'lvalue' and tgt.get('kind') in ('DeclRefExpr', 'MemberExpr', 'CXXOperatorCallExpr', 'ArraySubscriptExpr', 'CXXMemberCallExpr') \
+                    and not (self.is_vec_elem(tgt) and re.match(r'^const\b', qt.strip())):      # (phase 2: `const T & x = v[i]` is bound by value)
                 try:
                     root, path = self.resolve_lvalue(tgt, env)
                     env.vars[vid] = Alias(root, path)
@@ -1818,6 +2671,8 @@ class Translator:
         lt = type_of(lhs)
         env = env.copy()
         pre = []
+        if self.is_vec_elem(lhs):      # phase 2: `v[i] = x` on a std::vector of scalars
+            return self.exec_vec_assign(lhs, rhs, op, node, env, k)
         if classify(lt) == 'agg':
             if op:
                 raise Untranslatable('compound assignment on an aggregate')
@@ -1849,6 +2704,26 @@ class Translator:
             v = self.coerce(v, ty)
         return self.wrap(pre, self.bind_obj(env, root, path, v, k))
 
+    def eval_incr(self, n, env, pre):
+        """`++x` / `--x` / `x++` / `x--` on an integer lvalue used as a VALUE: the variable is updated in the environment of the
+        enclosing evaluation (conditionally evaluated operands refuse side effects: eval_guarded) and the new (prefix) or old
+        (postfix) value is the result"""
+        root, path = self.resolve_lvalue(n['inner'][0], env)
+        cur = self.read_leaf(env, root, path, 'i')
+        if cur.ty != 'i' or classify(type_of(n['inner'][0])) not in ('int', 'uint'):
+            raise Untranslatable('++/-- on a non-integer inside an expression')
+        new = Sc('(%s %s 1)' % (par(cur.t), '+' if n.get('opcode') == '++' else '-'), 'i')
+        self.write(env, root, path, new)
+        return cur if n.get('isPostfix') else new
+
+    @staticmethod
+    def has_side_effect(n):
+        kd = n.get('kind')
+        if (kd == 'UnaryOperator' and n.get('opcode') in ('++', '--')) or kd == 'CompoundAssignOperator' or \
+                (kd == 'BinaryOperator' and n.get('opcode') == '='):
+            return True
+        return any(Translator.has_side_effect(c) for c in n.get('inner', []) or [] if isinstance(c, dict))
+
     def exec_incr(self, s, env, k):
         env = env.copy()
         root, path = self.resolve_lvalue(s['inner'][0], env)
@@ -1865,6 +2740,12 @@ class Translator:
         inner = s['inner']
         cond_n, then_n = inner[0], inner[1]
         else_n = inner[2] if len(inner) > 2 else None
+        cn = strip_noop(cond_n)
+        if cn.get('kind') == 'BinaryOperator' and cn.get('opcode') == '&&' and self.has_side_effect(cn['inner'][1]):
+            # phase 2: `if (a && b) S else T` with a side effect in b (`--n == 0`)  ==  `if (a) { if (b) S else T } else T`
+            tail = [else_n] if else_n is not None else []
+            inner_if = {'kind': 'IfStmt', 'inner': [cn['inner'][1], then_n] + tail}
+            return self.exec_if({'kind': 'IfStmt', 'inner': [cn['inner'][0], inner_if] + tail}, env, k)
         pre = []
         env = env.copy()
         c = self.as_prop(self.eval(cond_n, env, pre))
@@ -2058,6 +2939,11 @@ class Translator:
                 tgt = n['inner'][0]
             elif kd == 'CXXOperatorCallExpr' and (self.callee_ref(n).get('referencedDecl') or {}).get('name') in ('operator=', 'operator+=', 'operator-=', 'operator*=', 'operator/='):
                 tgt = n['inner'][1]
+            if tgt is not None and self.is_vec_elem(tgt):      # phase 2: `v[i] = x` assigns the vector `v`
+                tgt = strip_noop(tgt)['inner'][1]
+            if kd == 'CXXMemberCallExpr' and self.callee_ref(n).get('name') in self.VEC_MUTATORS and self.callee_ref(n).get('inner') \
+                    and self.is_list(type_of(self.callee_ref(n)['inner'][0])):
+                tgt = self.callee_ref(n)['inner'][0]
             if tgt is not None and root_decl(tgt) not in declared:
                 root, path = self.resolve_lvalue(tgt, env)
                 if classify(type_of(tgt)) == 'agg':
@@ -2092,9 +2978,11 @@ class Translator:
                 out.append(f)
         return out
 
-    def exec_loop(self, cond_n, body_n, inc_n, env, k):
+    def exec_loop(self, cond_n, body_n, inc_n, env, k, counted=None):
         """`while (cond) body` / `for (;cond;inc) body` (cond / inc may be None); `break` and `continue` inside are supported,
-        `return` is not"""
+        `return` is not. `counted` = decl id of the loop variable of a `for (T i = a; i < b; ++i)` whose body neither assigns
+        `i` nor breaks (phase 2): if `b` is loop-invariant the auxiliary function recurses on the trip count `(b - a).toNat`
+        instead of on fuel and does not test the condition (it holds exactly for that many iterations)."""
         frame = env.frame
         top = frame.top()
         if self.contains(body_n, ('ReturnStmt', 'GotoStmt')):
@@ -2122,6 +3010,16 @@ class Translator:
             self.store(EL, root, list(path), Sc(pn, o.ty))
             inits.append(o)
             pats.append((pn, o.ty))
+        count_t = None
+        if counted is not None:
+            count_t = self.counted_trip(counted, cond_n, carried, pats, env, EL)
+        L.counted = count_t is not None
+        if count_t is None:
+            f = frame
+            while f is not None:
+                if getattr(f, 'counted', False):
+                    raise Untranslatable('loop on fuel nested inside a counted loop')
+                f = f.parent
         pc = []
         c = self.as_prop(self.eval(cond_n, EL, pc)) if cond_n else None
         if pc:
@@ -2129,7 +3027,7 @@ class Translator:
 
         def recur(e):
             cur = [self.read_leaf(e, r, list(p), ty) for (r, p), (_, ty) in zip(carried, pats)]
-            return ('ret', '%s @@FREE@@ fuel %s' % (name, ' '.join(par(x.t) for x in cur)))
+            return ('ret', '%s @@FREE@@ %s %s' % (name, 'fuel' if count_t is None else 'cnt', ' '.join(par(x.t) for x in cur)))
 
         def again(e):
             if inc_n:
@@ -2151,11 +3049,12 @@ class Translator:
         f = frame
         while f is not None:
             f.opt = True
-            f.fuel = True
+            if count_t is None:
+                f.fuel = True
             f = f.parent
         # auxiliary definition
         freestr = ' '.join(free)
-        tree = ('if', unpar(c), body, ('ret', exit_t)) if c is not None else body
+        tree = ('if', unpar(c), body, ('ret', exit_t)) if (c is not None and count_t is None) else body
         lines = self.render(tree, 4)
         txt = '\n'.join(lines).replace(' @@FREE@@', (' ' + freestr) if free else '')
         sig = self.signature(L, [(nm, L.params[nm]['ty']) for nm in free], fuel=False)
@@ -2164,11 +3063,16 @@ class Translator:
             top.nloops, top.cxx, ', '.join(pn for pn, _ in pats), name, sig, ' → '.join(tys), tuple_type([ty for _, ty in pats]))
         alt0 = '  | 0, %s => none' % ', '.join('_' for _ in pats)
         alt1 = '  | fuel + 1, %s =>' % ', '.join(pn for pn, _ in pats)
+        if count_t is not None:
+            hdr = '/-- loop %d of `%s`, counted (recursion on the trip count %s, condition not re-tested; `none` = a partial operation failed); carried variables: %s -/\ndef %s%s : Nat → %s → Option (%s)' % (
+                top.nloops, top.cxx, count_t, ', '.join(pn for pn, _ in pats), name, sig, ' → '.join(tys), tuple_type([ty for _, ty in pats]))
+            alt0 = '  | 0, %s => %s' % (', '.join(pn for pn, _ in pats), exit_t)
+            alt1 = '  | cnt + 1, %s =>' % ', '.join(pn for pn, _ in pats)
         if frame.final:
             top.loop_defs.append('\n'.join([hdr, alt0, alt1, txt]))
         # call
         args = [par(L.params[nm]['arg']) for nm in free]
-        term = ' '.join([name] + args + ['fuel'] + [par(x.t) for x in inits])
+        term = ' '.join([name] + args + ['fuel' if count_t is None else par(count_t)] + [par(x.t) for x in inits])
         r = frame.fresh('r')
         out = env.copy()
         lets = []
@@ -2216,6 +3120,8 @@ class Translator:
 
     def signature(self, frame, params, fuel, ret_tys=()):
         tys = set(ty for _, ty in params) | set(ret_tys) | set(tv for _, tv in frame.classes)
+        tys |= set(ty[1] for ty in tys if len(ty) == 2 and ty[0] == 'l')
+        tys |= set(ty[2] for ty in tys if len(ty) == 3 and ty[0] == 'L')
         for _, ty in params:
             if ty not in TY_LEAN:
                 tys |= {'a'} if 'α' in ty else set()
@@ -2253,6 +3159,9 @@ class Translator:
                     c = classify(q)
                     if c in ('double', 'float'):
                         found.add(c)
+                    elif c in ('agg', 'list'):      # phase 2: Eigen matrices / arrays / std::vector of float or double
+                        for em in re.finditer(r'\b(?:Matrix|Array|vector)<\s*(float|double)\b', q):
+                            found.add(em.group(1))
             for c in n.get('inner', []) or []:
                 if isinstance(c, dict):
                     walk(c)
@@ -2294,8 +3203,31 @@ class Translator:
         self.names.add(name)
         return name
 
-    def translate_fn(self, decl, suffix='', outputs=None):
+    def translate_fn(self, decl, suffix='', outputs=None, consts=None):
         fid = decl['id']
+        if consts:      # phase 2: the function specialised to constant integer arguments {parameter index: value}
+            key = (fid, tuple(sorted(consts.items())))
+            if key in self.fn_cache:
+                r = self.fn_cache[key]
+                if isinstance(r, Untranslatable):
+                    raise r
+                return r
+            if key in self.in_progress:
+                raise Untranslatable('recursive function')
+            self.in_progress.add(key)
+            try:
+                info = self._translate_fn(decl, suffix, None, consts)
+                self.fn_cache[key] = info
+                return info
+            except Untranslatable as e:
+                self.fn_cache[key] = e
+                raise
+            except (KeyError, IndexError, TypeError, AttributeError, ValueError) as e:
+                u = Untranslatable('translator error (%s: %s)' % (type(e).__name__, e))
+                self.fn_cache[key] = u
+                raise u
+            finally:
+                self.in_progress.discard(key)
         if outputs:      # a view of the function restricted to some written members: never used as a callee
             try:
                 return self._translate_fn(decl, suffix, outputs)
@@ -2323,10 +3255,24 @@ class Translator:
         finally:
             self.in_progress.discard(fid)
 
-    def _translate_fn(self, decl, suffix, outputs=None):
+    def _translate_fn(self, decl, suffix, outputs=None, consts=None):
         fid = decl['id']
         cxx = self.tu.fqual[fid]
-        name = self.lean_name(decl, suffix)
+        if consts:      # one base name per function (told apart per instantiation as usual), `_c<value>` per constant argument
+            bases = self.__dict__.setdefault('spec_base', {})
+            if fid not in bases:
+                q = cxx
+                for ns in self.spec.get('strip_ns', ['romea::core::', 'romea::']):
+                    if q.startswith(ns):
+                        q = q[len(ns):]
+                        break
+                ta = re.search(r'<(.*)>$', self.tu.record_of(decl).get('_qual', ''))
+                tag = ('_' + re.sub(r'_+', '_', lean_ident(ta.group(1)))) if ta else ''
+                bases[fid] = '.'.join(lean_ident(x) for x in q.split('::')) + tag + suffix
+            name = bases[fid] + ''.join('_c%d' % v if v >= 0 else '_cm%d' % -v for _, v in sorted(consts.items()))
+            self.names.add(name)
+        else:
+            name = self.lean_name(decl, suffix)
         parms = [c for c in decl.get('inner', []) or [] if c.get('kind') == 'ParmVarDecl']
         pindex = {p['id']: i for i, p in enumerate(parms)}
         body = [c for c in decl.get('inner', []) or [] if c.get('kind') == 'CompoundStmt'][0]
@@ -2348,6 +3294,9 @@ class Translator:
                 frame.opt, frame.fuel = prev.opt, prev.fuel
                 frame.written_final = dict(prev.written)
             env = Env(frame)
+            for ci, cv in (consts or {}).items():
+                env.vars[parms[ci]['id']] = sc_lit(Sc(str(cv) if cv >= 0 else '(%d)' % cv, 'i'), cv)
+                env.local_roots.add(parms[ci]['id'])
 
             def run_inits(i, e):
                 if i == len(inits):
@@ -2404,8 +3353,10 @@ class Translator:
         sig = self.signature(frame, plist, frame.fuel, out_tys)
         outs_doc = [('ret' + ('_' + '_'.join(key_name(x) for x in p) if p else '')) for p, _ in rets] + \
                    [path_name(self.root_name(frame, kk[0]), list(kk[1])) + "'" for kk in wkeys]
+        if consts:
+            cxx = cxx + ' with ' + ', '.join('%s = %d' % (parms[ci].get('name', 'arg%d' % ci), cv) for ci, cv in sorted(consts.items()))
         doc = '/-- `%s`%s — %s%s\n    result: %s%s -/' % (cxx, (' (restricted to the members %s; dead code removed)' % ', '.join(outputs)) if outputs else '', self.tu.where(decl), (' <%s>' % self.tu.tmpl_args[fid]) if fid in self.tu.tmpl_args else '',
-                                                     ', '.join(outs_doc), ' (none = fuel exhausted)' if frame.opt else '')
+                                                     ', '.join(outs_doc), (' (none = fuel exhausted)' if frame.fuel else ' (none = a partial operation failed: index outside a vector)') if frame.opt else '')
         text = '%s\ndef %s%s : %s :=\n%s' % (doc, name, sig, rt, '\n'.join(self.render(tree, 2)))
         for t in frame.loop_defs:
             self.out.append(t)
@@ -2457,7 +3408,7 @@ def translate(repo, scratch, spec):
     for f in spec['functions']:
         cxx = f['cxx']
         try:
-            cands = tu.find_function(cxx, f.get('sig'), f.get('targs'))
+            cands = tu.find_function(cxx, f.get('sig'), f.get('targs'), f.get('record'))
             if not cands:
                 raise Untranslatable('no definition of `%s`%s found in the translation unit' % (cxx, (' with signature containing `%s`' % f['sig']) if f.get('sig') else ''))
             if len(cands) > 1:
